@@ -19,3 +19,12 @@ package logger
 //@     0 <= i && i < len(a) && 0 <= j && j < len(a) && 0 <= k && k < len(a) && a.Less(i, j) && a.Less(j, k) ==> a.Less(i, k)
 //@ lemma SortableMsgs_Less_total C08 replay=sortable_msgs_ties: forall a SortableMsgs, i int, j int ::
 //@     0 <= i && i < len(a) && 0 <= j && j < len(a) && !a.Less(i, j) && !a.Less(j, i) ==> msgKeyEq(a[i], a[j])
+
+// The build summary table (printed after a build) is sorted with SummaryTable.Less: same obligations.
+//@ lemma SummaryTable_Less_asymmetric C08: forall t SummaryTable, i int, j int ::
+//@     0 <= i && i < len(t) && 0 <= j && j < len(t) ==> !(t.Less(i, j) && t.Less(j, i))
+//@ lemma SummaryTable_Less_transitive C08: forall t SummaryTable, i int, j int, k int ::
+//@     0 <= i && i < len(t) && 0 <= j && j < len(t) && 0 <= k && k < len(t) && t.Less(i, j) && t.Less(j, k) ==> t.Less(i, k)
+//@ lemma SummaryTable_Less_total C08: forall t SummaryTable, i int, j int ::
+//@     0 <= i && i < len(t) && 0 <= j && j < len(t) && !t.Less(i, j) && !t.Less(j, i) ==>
+//@     t[i].IsSourceMap == t[j].IsSourceMap && t[i].Bytes == t[j].Bytes && t[i].Dir == t[j].Dir && t[i].Base == t[j].Base
